@@ -391,17 +391,15 @@ void mmd_export_image_html(DString * out, const char * source, token * text, lin
 		if (strcmp(a->key, "width") == 0) {
 			width = strip_dimension_units(a->value);
 
-			if (strlen(width) + 2 == strlen(a->value)) {
-				if (strcmp(&(a->value[strlen(width)]), "px") == 0) {
-					a->value[strlen(width)] = '\0';
-				}
-			}
-
-			if (strcmp(a->value, width) == 0) {
+			// A plain number, or a number of pixels, becomes an attribute (without the
+			// unit); the attribute itself is left as written -- other exports of the
+			// same parse tree read it too
+			if ((strcmp(a->value, width) == 0) ||
+					((strlen(width) + 2 == strlen(a->value)) && (strcmp(&(a->value[strlen(width)]), "px") == 0))) {
 				print_const(" ");
 				print(a->key);
 				print_const("=\"");
-				print(a->value);
+				print(width);
 				print_const("\"");
 				free(width);
 				width = NULL;
@@ -412,17 +410,15 @@ void mmd_export_image_html(DString * out, const char * source, token * text, lin
 		} else if (strcmp(a->key, "height") == 0) {
 			height = strip_dimension_units(a->value);
 
-			if (strlen(height) + 2 == strlen(a->value)) {
-				if (strcmp(&(a->value[strlen(height)]), "px") == 0) {
-					a->value[strlen(height)] = '\0';
-				}
-			}
-
-			if (strcmp(a->value, height) == 0) {
+			// A plain number, or a number of pixels, becomes an attribute (without the
+			// unit); the attribute itself is left as written -- other exports of the
+			// same parse tree read it too
+			if ((strcmp(a->value, height) == 0) ||
+					((strlen(height) + 2 == strlen(a->value)) && (strcmp(&(a->value[strlen(height)]), "px") == 0))) {
 				print_const(" ");
 				print(a->key);
 				print_const("=\"");
-				print(a->value);
+				print(height);
 				print_const("\"");
 				free(height);
 				height = NULL;
